@@ -24,6 +24,8 @@ def scenarios(tier):
         S(["SI", "SU"], base),                                             # inline matched + unmatched
         S(["HU1", "HU2"], base),                                           # unmatched inline suppression in shared header
         S(["HM2", "HM1"], base + ["--error-exitcode=7"]),                  # header suppression matched by one includer only
+        S(["E2", "E"], [INFO, "--suppress=zerodiv", "--error-exitcode=7"]),  # global suppression matched by ONE worker only
+        S(["E", "E2"], [INFO, "--suppress=zerodiv", "--suppress=zerodiv:e2.c", "--error-exitcode=7"]),
         S(["E", "H1", "H2"], [INFO, "--suppress=arrayIndexOutOfBounds:hdr.h", "--suppress=zerodiv"]),
     ]
     light = [
